@@ -81,6 +81,8 @@ struct BCase {
     /// "decoder" | "html" | "xml"
     pipeline: String,
     delivery: Delivery,
+    /// 0 = LossyDecoder::new_encoding_rs (BOM sniffing), 1 = decoder with BOM removal, 2 = without BOM handling
+    decoder_kind: u8,
 }
 
 struct SimReader<'a> {
@@ -147,7 +149,7 @@ fn emit(c: &BCase) -> Value {
             ReadAct::Error => json!(["error"]),
         }).collect::<Vec<_>>()}),
     };
-    json!({"bytes_hex": hex(&c.bytes), "bytes_lossy": String::from_utf8_lossy(&c.bytes[..c.bytes.len().min(200)]), "encoding": c.encoding, "pipeline": c.pipeline, "delivery": d})
+    json!({"bytes_hex": hex(&c.bytes), "bytes_lossy": String::from_utf8_lossy(&c.bytes[..c.bytes.len().min(200)]), "encoding": c.encoding, "pipeline": c.pipeline, "delivery": d, "decoder_kind": c.decoder_kind})
 }
 
 fn parse(v: &Value) -> BCase {
@@ -178,6 +180,7 @@ fn parse(v: &Value) -> BCase {
         encoding: v["encoding"].as_str().unwrap_or("utf-8").to_string(),
         pipeline: v["pipeline"].as_str().unwrap_or("decoder").to_string(),
         delivery,
+        decoder_kind: v["decoder_kind"].as_u64().unwrap_or(0) as u8,
     }
 }
 
@@ -375,7 +378,23 @@ impl BytesWorld {
         } else {
             Delivery::Process { cuts: gen_byte_cuts(rng, &bytes), shared: rng.chance(1, 2) }
         };
-        BCase { bytes, encoding, pipeline: pipeline.to_string(), delivery }
+        let decoder_kind = if pipeline == "decoder" && encoding != "utf-8" && rng.chance(1, 3) { 1 + rng.below(2) as u8 } else { 0 };
+        BCase { bytes, encoding, pipeline: pipeline.to_string(), delivery, decoder_kind }
+    }
+}
+
+fn make_decoder(enc: &'static Encoding, kind: u8) -> encoding_rs::Decoder {
+    match kind {
+        1 => enc.new_decoder_with_bom_removal(),
+        2 => enc.new_decoder_without_bom_handling(),
+        _ => enc.new_decoder(),
+    }
+}
+
+fn make_lossy(enc: &'static Encoding, kind: u8, sink: RecSink) -> LossyDecoder<RecSink> {
+    match kind {
+        0 => LossyDecoder::new_encoding_rs(enc, sink),
+        k => LossyDecoder::new_from_encoding_rs_decoder(make_decoder(enc, k), sink),
     }
 }
 
@@ -395,7 +414,7 @@ fn reference(c: &BCase) -> (String, u64) {
         return (text, errs);
     }
     let enc = Encoding::for_label(c.encoding.as_bytes()).expect("known label");
-    let mut dec = enc.new_decoder();
+    let mut dec = make_decoder(enc, c.decoder_kind);
     let mut out = String::new();
     let mut errs = 0;
     let mut pos = 0;
@@ -465,7 +484,7 @@ fn run(c: &BCase, stats: &mut Stats) -> Result<u64, Violation> {
                         d.finish();
                     } else {
                         let enc = Encoding::for_label(c.encoding.as_bytes()).expect("label");
-                        let mut d = LossyDecoder::new_encoding_rs(enc, sink);
+                        let mut d = make_lossy(enc, c.decoder_kind, sink);
                         for ch in chunks {
                             d.process(ch);
                         }
@@ -478,7 +497,7 @@ fn run(c: &BCase, stats: &mut Stats) -> Result<u64, Violation> {
                         Utf8LossyDecoder::new(sink).read_from(&mut r)
                     } else {
                         let enc = Encoding::for_label(c.encoding.as_bytes()).expect("label");
-                        LossyDecoder::new_encoding_rs(enc, sink).read_from(&mut r)
+                        make_lossy(enc, c.decoder_kind, sink).read_from(&mut r)
                     };
                     stats.add("F8_reads_interrupted", r.interrupted);
                     stats.add("F8_short_reads", r.short_reads);
@@ -714,6 +733,9 @@ impl World for BytesWorld {
             Delivery::ReadFrom { script } => script.len() as u64,
         });
         stats.inc(&format!("pipeline_{}", c.pipeline));
+        if c.decoder_kind != 0 {
+            stats.inc("decoder_from_explicit_encoding_rs_decoder");
+        }
         stats.set_insert("encodings_exercised", fnv1a(c.encoding.as_bytes()));
         // a multi-byte UTF-8 sequence split by a cut?
         if let Delivery::Process { cuts, .. } = &c.delivery {
